@@ -103,6 +103,15 @@ CHECKS["C19"] = ("E2-sim",
   "C02 demands; any later limit fault must have L*min(T) of un-suspended time behind it.",
   "ACK/keep-alive during suspension tolerated; two PDUs already in the transport pipeline may still appear. Exhaustive over ordinals of the listed configurations only.",
   "DESIGN.md §5 C19")
+CHECKS["C08"] = ("E3-puppet",
+  "puppet sender (harness-fabricated PDUs at chosen virtual times) vs the real receiving daemon; exhaustive withheld-subset x arrival-order x NAK-procedure enumeration + sampled variations; oracle = exact model of what was delivered",
+  "For files of 0..5 (thorough 6) segments every subset of withheld metadata/segments x 5 arrival orders (incl. EOF first, data after EOF) x 4 NAK procedures is delivered by a puppet to a real receiver "
+  "(segment size 16: one request per NAK PDU), plus sampled segment sizes, large file-size flag, CRC, prompts and the puppet's answers (silent, all, half, duplicate EOF). Every NAK must be well-formed "
+  "(non-empty ranges or the 0-0 marker only while metadata is missing, inside scope and file, fitting the PDU size) and sound (never a held byte); in every quiet interval after EOF the union of the "
+  "requests must equal the missing set (plus metadata), a NAK must come within the delay after EOF and again each NAK period; deferred: nothing unsolicited before EOF; immediate: a new gap is requested "
+  "at once / after the delay if it persists; the receiver never verifies or finalizes while something is missing.",
+  "Timing tolerance 14 ms + 6 tau; the state known to the receiver is taken 3 tau + 3 ms before a NAK reaches the link. Exhaustive only for segment size 16, small file-size flag.",
+  "DESIGN.md §5 C08")
 NOT_YET = {}
 
 def main():
